@@ -31,7 +31,7 @@ REQUIRED_COUNTERS = {"quick": {"calls:dag_avg_deg": 40000, "calls:dag_full": 800
                                "freq:pairs-asserted": 20, "corner:p0": 1, "corner:p1": 1},
                      "thorough": {"calls:dag_avg_deg": 400000, "calls:dag_full": 80000, "freq:occupancy-asserted": 20, "freq:edge-law-asserted": 40,
                                   "freq:pairs-asserted": 20, "corner:p0": 1, "corner:p1": 1}}
-NSEEDS = {"quick": 1500, "thorough": 15000}
+NSEEDS = {"quick": 1500, "thorough": 60000}
 WRANGES = [(1, 1), (0.5, 2), (-2, -0.5), (-1, 1), (3, 3)]
 
 
